@@ -193,6 +193,67 @@ impl<T: Clone> Iterator for Odd<T> {
     }
 }
 
+/// Items that are leases on the source's single buffer (a reader that reuses one buffer, a bounded pool of one): while
+/// an item is alive the source cannot produce the next one and ends instead. The streaming API never keeps a shard
+/// after `add_*_shard` returns, so a one-shot call fed from such a source must release every item before it asks for
+/// the next one of the same iterator.
+struct Lease<T> {
+    value: T,
+    lent: std::rc::Rc<std::cell::Cell<bool>>,
+}
+
+impl<T> Drop for Lease<T> {
+    fn drop(&mut self) {
+        self.lent.set(false);
+    }
+}
+
+impl<T: AsRef<[u8]>> AsRef<[u8]> for Lease<T> {
+    fn as_ref(&self) -> &[u8] {
+        self.value.as_ref()
+    }
+}
+
+struct LeaseIter<T> {
+    items: std::vec::IntoIter<T>,
+    lent: std::rc::Rc<std::cell::Cell<bool>>,
+    starved: std::rc::Rc<std::cell::Cell<u32>>,
+}
+
+impl<T> LeaseIter<T> {
+    fn new(items: Vec<T>, starved: std::rc::Rc<std::cell::Cell<u32>>) -> Self {
+        Self { items: items.into_iter(), lent: std::rc::Rc::new(std::cell::Cell::new(false)), starved }
+    }
+    /// The next raw item, with the buffer marked as lent out - or `None` while the previous lease is still alive.
+    fn take(&mut self) -> Option<(T, std::rc::Rc<std::cell::Cell<bool>>)> {
+        if self.lent.get() {
+            self.starved.set(self.starved.get() + 1);
+            return None;
+        }
+        let value = self.items.next()?;
+        self.lent.set(true);
+        Some((value, self.lent.clone()))
+    }
+}
+
+/// For `encode`: the items are the leases themselves.
+struct LeasedShards<T>(LeaseIter<T>);
+impl<T> Iterator for LeasedShards<T> {
+    type Item = Lease<T>;
+    fn next(&mut self) -> Option<Lease<T>> {
+        self.0.take().map(|(value, lent)| Lease { value, lent })
+    }
+}
+
+/// For `decode`: (index, lease) pairs.
+struct LeasedIndexed<T>(LeaseIter<(usize, T)>);
+impl<T> Iterator for LeasedIndexed<T> {
+    type Item = (usize, Lease<T>);
+    fn next(&mut self) -> Option<(usize, Lease<T>)> {
+        self.0.take().map(|((index, value), lent)| (index, Lease { value, lent }))
+    }
+}
+
 pub fn run_oneshot(ch: &mut Chooser, ctx: &mut Ctx) {
     let n_ops = 2 + ch.pick_usize("ops", 10);
     ev!(ctx, "one-shot history: {n_ops} calls");
@@ -230,12 +291,14 @@ fn oneshot_encode(ch: &mut Chooser, ctx: &mut Ctx, op_no: usize) {
     let adm = encode_adm(k, r, &lens);
     ctx.distinct(&[0x05E, u64::from(adm.is_empty()), n.cmp(&k) as u64, (b % 64 != 0) as u64, adm.first().map_or(0, err_code)]);
 
-    let iter_kind = ch.pick("os.enc.iterkind", 7);
-    ctx.count(["oneshot.iter_exact", "oneshot.iter_filter", "oneshot.iter_unsized", "oneshot.iter_owned", "oneshot.iter_reentrant", "oneshot.iter_loose_hint", "oneshot.iter_not_fused"][iter_kind as usize]);
+    let iter_kind = ch.pick("os.enc.iterkind", 8);
+    ctx.count(["oneshot.iter_exact", "oneshot.iter_filter", "oneshot.iter_unsized", "oneshot.iter_owned", "oneshot.iter_reentrant", "oneshot.iter_loose_hint", "oneshot.iter_not_fused", "oneshot.iter_leases"][iter_kind as usize]);
+    let starved = std::rc::Rc::new(std::cell::Cell::new(0u32));
     let nested_failures = std::cell::Cell::new(0u32);
     let hint_seed = ch.seed64("os.enc.hint");
     let polled = std::rc::Rc::new(std::cell::Cell::new(0u32));
     let got = ctx.guarded(false, || match iter_kind {
+        7 => reed_solomon_simd::encode(k, r, LeasedShards(LeaseIter::new(items.clone(), starved.clone()))),
         5 => reed_solomon_simd::encode(k, r, Odd::new(items.iter().collect::<Vec<_>>(), Vec::new(), hint_seed, polled.clone())),
         6 => {
             // not fused: polled again after its first None it would hand out two more (well-formed) shards
@@ -307,7 +370,7 @@ fn oneshot_encode(ch: &mut Chooser, ctx: &mut Ctx, op_no: usize) {
             }
         }
         (Ok(_), Err(e)) => {
-            ctx.viol(&["C10", "C09", "C06"], "oneshot-equals-streaming", format!("oneshot/encode/{}", err_name(e)), format!("encode({k}, {r}, {n} shards) returned Err({e:?}) where the streaming sequence succeeds"), false);
+            ctx.viol(&["C10", "C09", "C06", "C08"], "oneshot-equals-streaming", format!("oneshot/encode/{}", err_name(e)), format!("encode({k}, {r}, {n} shards) returned Err({e:?}) where the streaming sequence succeeds"), false);
         }
         (Err(se), Ok(_)) => {
             ctx.viol(&["C10", "C06"], "oneshot-equals-streaming", "oneshot/encode/ok-where-streaming-fails".into(), format!("encode({k}, {r}, {n} shards, lens {:?}) returned Ok where the streaming sequence fails with {se:?}", &lens[..lens.len().min(8)]), false);
@@ -452,8 +515,9 @@ fn oneshot_decode(ch: &mut Chooser, ctx: &mut Ctx, op_no: usize) {
 
     // the arguments are `IntoIterator`s: the same items are handed over through iterators of different kinds
     // (exact size hint, no lower bound, unknown upper bound, owned items); the outcome must not depend on that
-    let iter_kind = ch.pick("os.dec.iterkind", 7);
-    ctx.count(["oneshot.iter_exact", "oneshot.iter_filter", "oneshot.iter_unsized", "oneshot.iter_owned", "oneshot.iter_reentrant", "oneshot.iter_loose_hint", "oneshot.iter_not_fused"][iter_kind as usize]);
+    let iter_kind = ch.pick("os.dec.iterkind", 8);
+    ctx.count(["oneshot.iter_exact", "oneshot.iter_filter", "oneshot.iter_unsized", "oneshot.iter_owned", "oneshot.iter_reentrant", "oneshot.iter_loose_hint", "oneshot.iter_not_fused", "oneshot.iter_leases"][iter_kind as usize]);
+    let starved = std::rc::Rc::new(std::cell::Cell::new(0u32));
     let nested_failures = std::cell::Cell::new(0u32);
     let hint_seed = ch.seed64("os.dec.hint");
     let polled = std::rc::Rc::new(std::cell::Cell::new(0u32));
@@ -461,6 +525,8 @@ fn oneshot_decode(ch: &mut Chooser, ctx: &mut Ctx, op_no: usize) {
     let extra_o: Vec<(usize, Vec<u8>)> = (0..sk).filter(|i| !orig.iter().any(|(j, _)| j == i)).take(2).map(|i| (i, stripe.originals[i].clone())).collect();
     let extra_r: Vec<(usize, Vec<u8>)> = (0..sr).filter(|i| !rec.iter().any(|(j, _)| j == i)).take(2).map(|i| (i, stripe.recovery[i].clone())).collect();
     let got = ctx.guarded(false, || match iter_kind {
+        // one buffer per source: the originals' reader and the recovery shards' reader each lend out one item at a time
+        7 => reed_solomon_simd::decode(k, r, LeasedIndexed(LeaseIter::new(orig.clone(), starved.clone())), LeasedIndexed(LeaseIter::new(rec.clone(), starved.clone()))),
         5 => reed_solomon_simd::decode(k, r, Odd::new(orig.clone(), Vec::new(), hint_seed, polled.clone()), Odd::new(rec.clone(), Vec::new(), hint_seed >> 16, polled.clone())),
         6 => reed_solomon_simd::decode(k, r, Odd::new(orig.clone(), extra_o.clone(), hint_seed, polled.clone()), Odd::new(rec.clone(), extra_r.clone(), hint_seed >> 16, polled.clone())),
         0 => reed_solomon_simd::decode(k, r, orig.iter().map(|(i, s)| (*i, &s[..])), rec.iter().map(|(i, s)| (*i, &s[..]))),
@@ -544,7 +610,7 @@ fn oneshot_decode(ch: &mut Chooser, ctx: &mut Ctx, op_no: usize) {
             }
         }
         (Ok(_), Err(e)) => {
-            ctx.viol(&["C10", "C09", "C06"], "oneshot-equals-streaming", format!("oneshot/decode/{}", err_name(e)), format!("decode({k}, {r}, originals {o_meta:?}, recovery {r_meta:?}) returned Err({e:?}) where the streaming sequence succeeds"), false);
+            ctx.viol(&["C10", "C09", "C06", "C08"], "oneshot-equals-streaming", format!("oneshot/decode/{}", err_name(e)), format!("decode({k}, {r}, originals {o_meta:?}, recovery {r_meta:?}) returned Err({e:?}) where the streaming sequence succeeds"), false);
         }
         (Err(se), Ok(g)) => {
             ctx.viol(&["C10"], "oneshot-equals-streaming", format!("oneshot/decode/ok-where-streaming-fails/{}", if rec.is_empty() { "no-recovery-given" } else { "with-recovery" }), format!("decode({k}, {r}, originals (index,len) {o_meta:?}, recovery {r_meta:?}) returned Ok({} restored) where the streaming sequence fails with {se:?}", g.len()), false);
